@@ -232,7 +232,7 @@ def norm_pair(ka, kb):
 
 
 def run(ctx):
-    proof_ok, can_run = common.prepare(ctx, "C13")
+    proof_ok, can_run = common.prepare(ctx, "C13+Param")
     if not can_run:
         common.broken_without_input(ctx, "build", ctx.notes[-1] if ctx.notes else "")
         return
